@@ -7,7 +7,7 @@ import (
 func fn(name string, params []Param, results []Type, body ...Stmt) Stmt {
 	return FuncDecl{Name: name, Params: params, Results: results, Body: body}
 }
-func call(name string, args ...Expr) Expr { return Call{Fn: name, Args: args} }
+func call(name string, args ...Expr) Expr  { return Call{Fn: name, Args: args} }
 func ret(vals ...Expr) Stmt                { return Return{vals} }
 func callS(name string, args ...Expr) Stmt { return ExprStmt{Call{Fn: name, Args: args}} }
 func forUp(ctr string, k int64, body ...Stmt) Stmt {
@@ -242,16 +242,16 @@ func g4ReturnRegisters() []BashCase {
 // G5: simultaneous assignment uses the old values on the right.
 func g5Simultaneous() []BashCase {
 	progs := map[string][]Stmt{
-		"swap":            {def("a", il(1)), def("b", il(2)), Assign{[]string{"a", "b"}, []Expr{vr("b"), vr("a")}}, pr(vr("a"), vr("b"))},
-		"fib-step":        {def("a", il(1)), def("b", il(1)), forUp("i", 5, Assign{[]string{"a", "b"}, []Expr{vr("b"), bin("+", vr("a"), vr("b"))}}, pr(vr("a"), vr("b")))},
-		"rotate3":         {def("a", il(1)), def("b", il(2)), def("c", il(3)), Assign{[]string{"a", "b", "c"}, []Expr{vr("b"), vr("c"), vr("a")}}, pr(vr("a"), vr("b"), vr("c"))},
-		"swap-strings":    {def("s", sl("left")), def("t", sl("right")), Assign{[]string{"s", "t"}, []Expr{vr("t"), vr("s")}}, pr(vr("s"), vr("t"))},
-		"swap-bools":      {def("p", bl(true)), def("q", bl(false)), Assign{[]string{"p", "q"}, []Expr{vr("q"), vr("p")}}, pr(vr("p"), vr("q"))},
-		"swap-in-func":    {fn("sw", []Param{{"a", TInt}, {"b", TInt}}, []Type{TInt, TInt}, Assign{[]string{"a", "b"}, []Expr{vr("b"), vr("a")}}, ret(vr("a"), vr("b"))), VarDecl{Names: []string{"x", "y"}, Short: true, Values: []Expr{call("sw", il(1), il(2))}}, pr(vr("x"), vr("y"))},
+		"swap":                 {def("a", il(1)), def("b", il(2)), Assign{[]string{"a", "b"}, []Expr{vr("b"), vr("a")}}, pr(vr("a"), vr("b"))},
+		"fib-step":             {def("a", il(1)), def("b", il(1)), forUp("i", 5, Assign{[]string{"a", "b"}, []Expr{vr("b"), bin("+", vr("a"), vr("b"))}}, pr(vr("a"), vr("b")))},
+		"rotate3":              {def("a", il(1)), def("b", il(2)), def("c", il(3)), Assign{[]string{"a", "b", "c"}, []Expr{vr("b"), vr("c"), vr("a")}}, pr(vr("a"), vr("b"), vr("c"))},
+		"swap-strings":         {def("s", sl("left")), def("t", sl("right")), Assign{[]string{"s", "t"}, []Expr{vr("t"), vr("s")}}, pr(vr("s"), vr("t"))},
+		"swap-bools":           {def("p", bl(true)), def("q", bl(false)), Assign{[]string{"p", "q"}, []Expr{vr("q"), vr("p")}}, pr(vr("p"), vr("q"))},
+		"swap-in-func":         {fn("sw", []Param{{"a", TInt}, {"b", TInt}}, []Type{TInt, TInt}, Assign{[]string{"a", "b"}, []Expr{vr("b"), vr("a")}}, ret(vr("a"), vr("b"))), VarDecl{Names: []string{"x", "y"}, Short: true, Values: []Expr{call("sw", il(1), il(2))}}, pr(vr("x"), vr("y"))},
 		"swap-globals-in-func": {def("ga", il(1)), def("gb", il(2)), fn("sw", nil, nil, Assign{[]string{"ga", "gb"}, []Expr{vr("gb"), vr("ga")}}), callS("sw"), pr(vr("ga"), vr("gb"))},
-		"expr-both-sides": {def("a", il(3)), def("b", il(4)), Assign{[]string{"a", "b"}, []Expr{bin("+", vr("a"), vr("b")), bin("-", vr("a"), vr("b"))}}, pr(vr("a"), vr("b"))},
-		"independent":     {def("a", il(3)), def("b", il(4)), Assign{[]string{"a", "b"}, []Expr{il(7), il(8)}}, pr(vr("a"), vr("b"))},
-		"define-from-others": {def("a", il(3)), def("b", il(4)), VarDecl{Names: []string{"c", "d"}, Short: true, Values: []Expr{vr("b"), vr("a")}}, pr(vr("c"), vr("d"))},
+		"expr-both-sides":      {def("a", il(3)), def("b", il(4)), Assign{[]string{"a", "b"}, []Expr{bin("+", vr("a"), vr("b")), bin("-", vr("a"), vr("b"))}}, pr(vr("a"), vr("b"))},
+		"independent":          {def("a", il(3)), def("b", il(4)), Assign{[]string{"a", "b"}, []Expr{il(7), il(8)}}, pr(vr("a"), vr("b"))},
+		"define-from-others":   {def("a", il(3)), def("b", il(4)), VarDecl{Names: []string{"c", "d"}, Short: true, Values: []Expr{vr("b"), vr("a")}}, pr(vr("c"), vr("d"))},
 	}
 	cases := []BashCase{}
 	for _, k := range sortedStmtKeys(progs) {
